@@ -132,6 +132,8 @@ def mk_bin(op, a, b):
     if op == "Sub" and a == b and a[0] != "int":
         return ("int", 0, "usize")
     # a / n * n  is  a - a % n   (integers; one canonical spelling so that equivalent arithmetic compares equal)
+    if op == "Div" and a[0] == "bin" and a[1] == "Sub" and a[3] == ("bin", "Rem", a[2], b):
+        return ("bin", "Div", a[2], b)          # (x - x % n) / n = x / n
     if op == "Mul":
         for x, y in ((a, b), (b, a)):
             if x[0] == "bin" and x[1] == "Div" and x[3] == y:
